@@ -233,6 +233,7 @@ struct Agg {
     refs_crashed: u64,
     degraded: u64,
     engines: BTreeMap<String, u64>,
+    programs: HashSet<u64>,
 }
 
 impl Agg {
@@ -264,6 +265,7 @@ impl Agg {
             refs_crashed: 0,
             degraded: 0,
             engines: BTreeMap::new(),
+            programs: HashSet::new(),
         }
     }
     fn bump(m: &mut BTreeMap<String, u64>, k: &str, by: u64) {
@@ -295,6 +297,7 @@ impl Agg {
             self.scheds.insert(r.schedkey);
         }
         self.canaries.insert(r.canary.clone());
+        self.programs.extend(r.prog_keys.iter().copied());
         self.digests.insert(r.digest);
         self.faults.add(&r.faults);
         let f = &r.faults;
@@ -716,6 +719,7 @@ fn cmd_run(args: &[String]) -> i32 {
             "seam_event_counts": agg.counters,
             "distinct_interleavings_stratum_C": agg.scheds.len(),
             "distinct_hash_key_states": agg.canaries.len(),
+            "distinct_program_texts_or_file_trees": agg.programs.len(),
             "distinct_event_log_digests": agg.digests.len(),
             "operation_kinds_executions": agg.op_kinds,
             "panicking_inputs_harvested": harvested_total,
